@@ -192,6 +192,84 @@ def generate(loader):
     out.append(emit("gen_wlcc14_s", ["eps"], xyl + [("u", ul)],
                     L.wlcc_loss(xl, yl, source_mask=ul, kernel_size=(1, 3), epsilon=eps, reduction="none"),
                     "wlcc_loss(x, y, source_mask=u), reduction='none'"))
+    # ---- mi_loss: default intensity range and bin count (structure only) ----------------------------------
+    # the global minimum / maximum of a tensor and the binary min / max are opaque nodes; the trace stops at
+    # torch.linspace(vmin, vmax, num_bins), whose arguments are what is recorded
+    class _Stop(Exception):
+        pass
+
+    rec = {}
+
+    def _allred(name):
+        def f(self, *a, **k):
+            if a or k:
+                raise TraceError(f"Tensor.{name} with arguments")
+            tot = E.const(0)
+            for v in self.a.reshape(-1):
+                tot = tot + v
+            z = np.empty((), dtype=object)
+            z[()] = E("fn", name + "all", tot)
+            return st.Tensor(z)
+        return f
+
+    def _bin(name):
+        def f(a, b):
+            z = np.empty((), dtype=object)
+            z[()] = E("fn2", name + "2", a.a[()], b.a[()])
+            return st.Tensor(z)
+        return f
+
+    def _linspace(vmin, vmax, steps, **kw):
+        rec["args"] = (vmin, vmax, steps)
+        raise _Stop()
+    saved = {n: getattr(st.Tensor, n, None) for n in ("min", "max")}
+    saved_mod = {n: st.__dict__.get(n) for n in ("min", "max", "linspace")}
+    st.Tensor.min, st.Tensor.max = _allred("min"), _allred("max")
+    st.min, st.max, st.linspace = _bin("min"), _bin("max"), _linspace
+    try:
+        xi, ti = sym("x", (1, 1, 1, 2)), sym("t", (1, 1, 1, 2))
+        ranges = {}
+        for fname in ("mi_loss", "nmi_loss"):
+            try:
+                getattr(L, fname)(xi, ti)
+            except _Stop:
+                pass
+            else:
+                raise TraceError(f"{fname}: torch.linspace not reached")
+            ranges[fname] = rec.pop("args")
+    finally:
+        for n, v in saved.items():
+            if v is None:
+                delattr(st.Tensor, n)
+            else:
+                setattr(st.Tensor, n, v)
+        for n, v in saved_mod.items():
+            if v is None:
+                st.__dict__.pop(n, None)
+            else:
+                st.__dict__[n] = v
+    if ranges["mi_loss"][2] != 64 or ranges["nmi_loss"][2] != 64:
+        raise TraceError("mi_loss: default number of bins is not 64")
+    for a_, b_ in zip(ranges["mi_loss"][:2], ranges["nmi_loss"][:2]):
+        if not E.const(a_).same(E.const(b_)):
+            raise TraceError("nmi_loss and mi_loss use different default intensity ranges")
+    names = {"minall((x0 + x1))": "xmin", "maxall((x0 + x1))": "xmax", "minall((t0 + t1))": "tmin", "maxall((t0 + t1))": "tmax"}
+
+    def emit_range(e):
+        e = E.const(e)
+        if e.op != "fn2" or e.args[0] not in ("min2", "max2"):
+            raise TraceError(f"mi_loss: default range bound is not a binary min/max: {e}")
+        parts = []
+        for a_ in e.args[1:]:
+            k_ = st.to_text(a_)
+            if k_ not in names:
+                raise TraceError(f"mi_loss: default range bound uses {k_}")
+            parts.append(names[k_])
+        return f"f{e.args[0]} {parts[0]} {parts[1]}"
+    out.append("(* mi_loss / nmi_loss: default (vmin, vmax) passed to torch.linspace, in terms of the global minima / maxima of\n"
+               "   input (xmin, xmax) and target (tmin, tmax) and abstract binary min / max *)\n"
+               "Definition gen_mi_default_range (fmin2 fmax2 : K -> K -> K) (xmin xmax tmin tmax : K) : K * K :=\n"
+               f"  ({emit_range(ranges['mi_loss'][0])}, {emit_range(ranges['mi_loss'][1])}).\n")
     # default epsilons and kernel size
     import inspect
     defaults = {}
